@@ -8,6 +8,7 @@ and the declared values of the external `extractNumFmtDecimal` (`decl`).
   resetc f l b x                NewFile() package reopened with these count attributes in styles.xml -> ok <registry dump>
   decl <hexcode> <n>            environment: extractNumFmtDecimal -> ok
   new <style>                   NewStyle                          -> ok <id> sz=.. dp=.. <counts> | ERR
+  norm <style>                  Spec.normFont / Spec.normFill of the request -> F=.. L=..
   get <id>                      GetStyle                          -> ok <style> | ERR
   rereg <id>                    NewStyle(GetStyle(id))            -> ok <id> <counts> | ERR
   dump                          registry tables                   -> <registry dump>
@@ -221,6 +222,13 @@ def step (st : St) (w : List String) : St × String :=
       | .ok (r', id, s') =>
         ({ st with reg := r' }, "ok " ++ natS id ++ " sz=" ++ optS (fun (f : Font) => intS f.size) s'.font ++
           " dp=" ++ optS intS s'.decimalPlaces ++ " " ++ countsS r')
+  | "norm" :: rest =>
+    -- the Spec's normal forms of the requested font and fill (`~` = workbook default)
+    match parseStyle rest with
+    | none => (st, "bad-op")
+    | some s =>
+      let fam : Str := match st.reg.fonts with | d :: _ => d.name | [] => []
+      (st, "F=" ++ optS (fun f => fontS (Spec.normFont fam f)) s.font ++ " L=" ++ optS fillS (Spec.normFill s.fill))
   | ["get", id] =>
     match id.toInt? with
     | none => (st, "bad-op")
